@@ -91,6 +91,9 @@ type stmt struct {
 	Kind  string // create | insert | update | delete
 	Table string
 	N     int // rows inserted / matched
+	// MustFail: the statement is invalid (a row over the size limit) and has to be refused; it changes nothing,
+	// but the engine may have used up a row id or an LSN for it
+	MustFail bool
 	// apply mutates the model as the acknowledged statement would; prefix >= 0
 	// applies only the first prefix row operations (C03).
 	apply func(m *mModel, prefix int)
@@ -182,6 +185,22 @@ func mkInsert(m *mModel, table string, n int, big bool) stmt {
 			}
 			t.Inserted += n
 		}}
+}
+
+// mkInsertTooLarge is a single-row INSERT whose varchar value pushes the row over the 400-byte limit.
+func mkInsertTooLarge(m *mModel, table string) (stmt, bool) {
+	t := m.Tables[table]
+	r := seqRow(t, t.Inserted+1, false)
+	found := false
+	lits := make([]string, len(r))
+	for j, v := range r {
+		if _, isStr := v.(string); isStr && !found {
+			v, found = strings.Repeat("L", 420), true
+		}
+		lits[j] = sqlLit(v)
+	}
+	return stmt{SQL: fmt.Sprintf("INSERT INTO %s VALUES (%s)", table, strings.Join(lits, ", ")), Kind: "insert-refused", Table: table, MustFail: true,
+		apply: func(*mModel, int) {}}, found
 }
 
 // mkInsertNull inserts two rows naming only the sequence column, so every
@@ -404,6 +423,18 @@ func (w *world) exec(q string) error {
 // do executes a generated statement that the model says must succeed.
 func (w *world) do(s stmt) bool {
 	w.c.Logf("%s", clip(s.SQL, 160))
+	if s.MustFail {
+		err := w.exec(s.SQL)
+		if _, isPanic := err.(*panicErr); isPanic {
+			w.failErr("statement-failed", s.SQL, err)
+			return false
+		}
+		if err == nil {
+			w.c.Fail("invalid-statement-accepted", "%s was accepted although its row exceeds the size limit", clip(s.SQL, 100))
+			return false
+		}
+		return true
+	}
 	if err := w.exec(s.SQL); err != nil {
 		if w.opt.TolerateCacheFull && strings.Contains(err.Error(), "cache is full") {
 			w.cacheFull = true
@@ -850,15 +881,16 @@ func (w *world) dumpKey() string {
 // alphabet returns the statements enabled in the current model state. The
 // order is fixed (simplest first) so choice indices replay deterministically.
 type alphaOpt struct {
-	Tables     []string // tables that may be created / used
-	Inserts    []int    // row counts for multi-row inserts
-	BigInsert  bool
-	Updates    bool
-	Deletes    bool
-	NonePreds  bool     // include statements matching no row
-	FewDeletes bool     // only DELETE upper half / DELETE all (not "= last row")
-	NullInsert bool     // INSERT naming only the first column (the others are NULL)
-	OnlyCreate []string // tables that may be created but get no other statements (row ids and LSNs consumed without a log record)
+	Tables        []string // tables that may be created / used
+	Inserts       []int    // row counts for multi-row inserts
+	BigInsert     bool
+	Updates       bool
+	Deletes       bool
+	NonePreds     bool     // include statements matching no row
+	FewDeletes    bool     // only DELETE upper half / DELETE all (not "= last row")
+	NullInsert    bool     // INSERT naming only the first column (the others are NULL)
+	FailingInsert bool     // a single-row INSERT over the size limit (refused; may use up a row id)
+	OnlyCreate    []string // tables that may be created but get no other statements (row ids and LSNs consumed without a log record)
 }
 
 func (w *world) alphabet(o alphaOpt) []stmt {
@@ -878,6 +910,11 @@ func (w *world) alphabet(o alphaOpt) []stmt {
 		}
 		if o.NullInsert {
 			out = append(out, mkInsertNull(m, tn))
+		}
+		if o.FailingInsert {
+			if st, ok := mkInsertTooLarge(m, tn); ok {
+				out = append(out, st)
+			}
 		}
 		half := t.Inserted / 2
 		if o.Updates && len(t.Rows) > 0 {
